@@ -279,6 +279,14 @@ example : escapeIPv6 "fe80::1%eth0".toList = "[fe80::1%eth0]".toList ∧
     parseHostPort (some "[fe80::1%eth0]:8080".toList) .none
       = .ok (some "fe80::1%eth0".toList, some 8080) := by decide
 
+-- zone ids that look like percent-escapes are ordinary members of the class: nothing is decoded
+example : isIPv6Host "fe80::1%25".toList = true ∧ isIPv6Host "fe80::1%251".toList = true ∧
+    isIPv6Host "fe80::1%3A80".toList = true ∧
+    parseHostPort (some (escapeIPv6 "fe80::1%25".toList ++ ":80".toList)) .none
+      = .ok (some "fe80::1%25".toList, some 80) ∧
+    parseHostPort (some (escapeIPv6 "fe80::1%251".toList)) .none
+      = .ok (some "fe80::1%251".toList, none) := by decide
+
 /-- The restriction on the scope is needed: `escape_ipv6` accepts a scope containing ']' (any
     1..15 characters pass `is_valid_ipv6`), and `parse_host_port` then fails to unpack. -/
 theorem hostport_scope_with_bracket_fails :
